@@ -121,10 +121,74 @@ func ruleGCMarkGuard(r *Report) {
 	}
 	posEq := eqEdgesBetween(busy, isParamN(2), fromBucket)
 	fileEq := eqEdgesBetween(busy, isParamN(3), fromBucket)
+	// eqKind: v is `param == bucket value` for the position (2) or file (3) parameter
+	eqKind := func(v ssa.Value) int {
+		bo, ok := v.(*ssa.BinOp)
+		if !ok || bo.Op != token.EQL {
+			return 0
+		}
+		x, y := stripIntConv(bo.X), stripIntConv(bo.Y)
+		for _, n := range []int{2, 3} {
+			if (isParamN(n)(x) && fromBucket(y)) || (isParamN(n)(y) && fromBucket(x)) {
+				return n
+			}
+		}
+		return 0
+	}
+	neqAll := edgeSet{}
+	for _, ed := range append(append([]Edge{}, posEq...), fileEq...) {
+		neqAll[Edge{ed.From, 1 - ed.Idx}] = true
+	}
+	// conjunction: the returned value is exactly `file equal && position equal`
+	// written as an expression (a phi over the short-circuit evaluation).
+	conjunction := func(v ssa.Value) bool {
+		phi, ok := v.(*ssa.Phi)
+		if !ok {
+			return false
+		}
+		sawEq := false
+		for i, in := range phi.Edges {
+			pred := phi.Block().Preds[i]
+			entry := Edge{pred, succIndex(pred, phi.Block())}
+			term := lastInstr(pred)
+			if b, isC := boolConst(in); isC {
+				if b {
+					g1, _ := guarded(busy, term, mkEdgeSet(posEq), nil)
+					g2, _ := guarded(busy, term, mkEdgeSet(fileEq), nil)
+					if !g1 || !g2 {
+						return false
+					}
+				} else if !neqAll[entry] {
+					if g, _ := guarded(busy, term, neqAll, nil); !g {
+						return false
+					}
+				}
+				continue
+			}
+			k := eqKind(in)
+			if k == 0 {
+				return false
+			}
+			other := posEq
+			if k == 2 {
+				other = fileEq
+			}
+			if g, _ := guarded(busy, term, mkEdgeSet(other), nil); !g || len(other) == 0 {
+				return false
+			}
+			sawEq = true
+		}
+		return sawEq
+	}
 	for _, ret := range returnsOf(busy) {
 		if b, isC := boolConst(retVal(ret, 0)); !isC || !b {
 			if _, isC2 := boolConst(retVal(ret, 0)); !isC2 {
-				r.Bad(rule, "busy/return-true", ret.Pos(), "busy returns a computed boolean the rule does not recognise")
+				if conjunction(retVal(ret, 0)) {
+					r.Ok(rule, "busy/return-true", ret.Pos(), "the returned value is the conjunction `file number equal && position equal` of the bucket's location and the arguments")
+					r.Ok(rule, "busy/return-false", ret.Pos(), "the returned value is that conjunction: false exactly when one of them differs")
+				} else {
+					r.Bad(rule, "busy/return-true", ret.Pos(), "busy returns a computed boolean that is not the conjunction of the file-number and position equalities")
+				}
 			}
 			continue
 		}
@@ -540,6 +604,7 @@ func init() {
 		rulePosCodec(r)
 		ruleRescanAppliesAll(r)
 		ruleGoHandshake(r)
+		r.support([]string{"reloc-binding", "freelist-consume", "fc-removed-writes", "atomic-rmw"})
 	},
 		"Decides structural necessary conditions of 'GC never changes contents', not the behaviour: index GC sets the deleted bit only on the busy()==false edge (busy reads the bucket under bucketLk and reports in-use iff file number and position both match) or when merging already-deleted records; primary records are marked only via the freelist, when not deleted and the size matches; slices handed to the primary's retaining Put during relocation do not alias a reused buffer; no *os.File result is used after its open failed; the primary is flushed and the freelist pool handed over before a cycle applies the freelist; reap/remove/truncate only touch file numbers dominated by a != current test against a snapshot read under flushLock; relocation frees exactly the moved record's (offset,size) after the re-point; only the header's first file is unlinked, after the header write; all scanners honour the deleted bit. Not covered: truncation offsets (freeAt/busyAt arithmetic), merge sizes, resume cursor, schedules.")
 }
